@@ -20,7 +20,16 @@ def wakeup_paths(chk, m, K, Kconst):
     del NOW_BY_ARG[:]
     # a kernel member the wake-up decision tests against 0: is it the run queue's length (S12)?
     known = {"current", "state", "now", "runq", "atomic_runq", "timerq", "taint_flags"}
-    for extra in [k for k in K.members if k not in known]:
+    # only members that the wake-up / fast-path decisions actually test are candidates (a statistics block is not)
+    tested = set()
+    for fname in ("get_next_wakeup", "fibre_scheduler_next"):
+        if m.has_fn(fname):
+            for p_ in fib.fn_paths(m, fname)[1]:
+                for c_, t_, i_ in p_.conds:
+                    for x in paths.subexprs(c_):
+                        if x[0] == "ld" and x[1] is not None and K.member_of(x[1]) and K.member_of(x[1])[1] == 0:
+                            tested.add(K.member_of(x[1])[0])
+    for extra in [k for k in K.members if k not in known and k in tested]:
         if fib.check_counter_tracks_runq(chk, m, K, extra) is True:
             fib.COUNTER_OK[extra] = True
         else:
